@@ -105,6 +105,8 @@ pub struct Script {
     pub ops_gen: Vec<AllocOp>,
     pub ops_count: Vec<AllocOp>,
     pub ops_call: Vec<AllocOp>,
+    pub call_ops_from: u64,
+    pub call_ops_until: u64,
     pub ops_drop_out: Vec<AllocOp>,
     pub ops_drop_in: Vec<AllocOp>,
     pub panic_where: String,
@@ -135,6 +137,8 @@ impl Script {
             ops_gen: parse_ops(a.get("gen")),
             ops_count: parse_ops(a.get("count")),
             ops_call: parse_ops(a.get("call")),
+            call_ops_from: a["call_from"].as_u64().unwrap_or(0),
+            call_ops_until: a["call_until"].as_u64().unwrap_or(u64::MAX),
             ops_drop_out: parse_ops(a.get("drop_out")),
             ops_drop_in: parse_ops(a.get("drop_in")),
             panic_where: p["where"].as_str().unwrap_or("").to_owned(),
@@ -349,7 +353,11 @@ fn call<O: OutShape>(in_id: u64) -> O {
     let nth = untracked(|| s.visit("call"));
     let out_id = if std::mem::size_of::<O>() == 0 { 0 } else { s.fresh() };
     untracked(|| event(Ev::new("call").u("in", in_id as u128).u("out", out_id as u128)));
-    do_ops("call", &s.ops_call);
+    // Allocator activity may be limited to a window of a thread's calls
+    // (warm-up allocations, late allocations).
+    if nth >= s.call_ops_from && nth < s.call_ops_until {
+        do_ops("call", &s.ops_call);
+    }
     untracked(|| {
         clock::advance(s.call_cost(nth));
         event(Ev::new("call_end").u("in", in_id as u128))
